@@ -29,6 +29,9 @@ RULE = (
     "(always_check_safety() / a check_safety() with-block) and with the file entry points given a "
     "BytesIO, a file opened by path or a file opened from a descriptor (.name is an int); "
     "distinct = distinct (bytes, entry point, additions, layer, stream)."
+    ' Leaves may resolve their globals with INST, use Python-2 spellings at protocol 4, or be'
+    ' preceded by a direct FicklingMLUnpickler with additions of its own; all six layers (none /'
+    ' check armed / with-block open / with-block left, GLOBAL or INST) are run per case.'
 )
 ASSUMPTIONS = [
     "open known finding KF-C07-1: legacy / zip torch containers reached through "
